@@ -82,9 +82,10 @@ structure Store where
   rows : List Row
   seen : List Nat        -- consumed ciphertexts
   failed : List Nat      -- wrapper ids with a Failed processed-message record
+  echoed : List Nat      -- own wrappers whose echo was already processed (record state Created → Processed)
   deriving Repr, Inhabited
 
-def Store.empty : Store := ⟨[], [], []⟩
+def Store.empty : Store := ⟨[], [], [], []⟩
 
 /-- `save_message`: INSERT … ON CONFLICT(mls_group_id, id) DO UPDATE SET every column -/
 def upsert (row : Row) : List Row → List Row
@@ -121,9 +122,10 @@ def recv (recompute : Bool) (me : Nat) (mine : List Nat) (s : Store) (w : Wrappe
   else if w.outer ≠ w.hTag then fail s w.wid                        -- outer decryption fails
   else if w.ct.gid ≠ w.hTag then fail s w.wid                       -- MLS: wrong group id
   else if w.ct.sender = me then                                     -- CannotDecryptOwnMessage: cached copy or nothing
-    match s.rows.find? (fun r => r.wrapper = w.wid ∧ r.gid = w.hTag) with
-    | some r => (s, .app r.id)
-    | none => fail s w.wid
+    if w.wid ∈ s.echoed then (s, .refused)                          -- record already Processed → Unprocessable
+    else match s.rows.find? (fun r => r.wrapper = w.wid ∧ r.gid = w.hTag) with
+      | some r => ({ s with echoed := w.wid :: s.echoed }, .app r.id)  -- first echo: only the state columns change
+      | none => fail s w.wid                                         -- no processed-message record for this wrapper
   else if !w.mlsOk then fail s w.wid
   else if w.ct.cid ∈ s.seen then fail s w.wid                       -- generation already consumed
   else processApp recompute { s with seen := w.ct.cid :: s.seen } w
